@@ -191,6 +191,7 @@ func H_helptext() {
 		return vWord(tag+"desc", wl), "", true
 	}
 
+	withVersion := vParamInt("version") == 1 && depth == 0 // the application's version flag is an option like the others
 	var build func(c *Cmd)
 	var expectBody []string
 	build = func(c *Cmd) {
@@ -228,6 +229,10 @@ func H_helptext() {
 		}
 		// options: up to 3 from the pool, types and defaults of every kind
 		var optLines []string
+		if withVersion {
+			// declared first (before build): listed first
+			optLines = append(optLines, "-V, --version Show the version and exit")
+		}
 		nopt := vParamInt("nopts")
 		first := vParamInt("firstopt")
 		for i := 0; i < nopt; i++ {
@@ -242,8 +247,14 @@ func H_helptext() {
 				c.Int(IntOpt{Name: od.names, Desc: d, EnvVar: env, Value: 42, HideValue: hide})
 				def = "42"
 			case 2:
-				c.Ints(IntsOpt{Name: od.names, Desc: d, EnvVar: env, Value: []int{1, 2}, HideValue: hide})
-				def = "[1, 2]"
+				if first%2 == 1 {
+					// float lists are shown with every digit that was declared
+					c.Floats64(Floats64Opt{Name: od.names, Desc: d, EnvVar: env, Value: []float64{0.75, 3.14159265358979, 16777217}, HideValue: hide})
+					def = "[0.75, 3.14159265358979, 1.6777217e+07]"
+				} else {
+					c.Ints(IntsOpt{Name: od.names, Desc: d, EnvVar: env, Value: []int{1, 2}, HideValue: hide})
+					def = "[1, 2]"
+				}
 			}
 			optLines = append(optLines, vRowLines(od.show, d, env, def, hide)...)
 		}
@@ -253,7 +264,7 @@ func H_helptext() {
 			c.Var(VarOpt{Name: "c cv", Desc: d, Value: v})
 			optLines = append(optLines, vRowLines("-c, --cv", d, "", def, false)...)
 		}
-		if nopt > 0 || custom {
+		if nopt > 0 || custom || withVersion {
 			specParts = append([]string{"[OPTIONS]"}, specParts...)
 		}
 		// sub-commands
@@ -301,12 +312,16 @@ func H_helptext() {
 	}
 
 	app := App("app", desc)
+	if withVersion {
+		app.Version("V version", "1.2")
+	}
 	var target *Cmd
 	if depth == 0 {
 		build(app.Cmd)
 		target = app.Cmd
 	} else {
-		app.Command("c", desc, func(c *Cmd) { build(c); target = c })
+		hiddenParent := vChoice("hiddenparent", 2) == 1 // a hidden command's own help still lists its sub-commands
+		app.Command("c", desc, func(c *Cmd) { c.Hidden = hiddenParent; build(c); target = c })
 	}
 	var rec interface{}
 	func() {
